@@ -16,7 +16,7 @@ def strategy_class(name):
 
 @st.composite
 def rfa_case(draw, ctx, strategies=None, m_lo=2, m_hi=None, n_hi=None, ykinds=None, xkinds=None, exp_lo=0.02,
-             smooth_default=False, max_ratio=1e3, nonconstant=False):
+             smooth_default=False, max_ratio=1e3, nonconstant=False, alpha_hi=1.0):
     name = draw(st.sampled_from(strategies or gens.STRATEGY_NAMES))
     m_hi = m_hi or ctx.pick(14, 60)
     n_hi = n_hi or ctx.pick(24, 64)
@@ -24,7 +24,7 @@ def rfa_case(draw, ctx, strategies=None, m_lo=2, m_hi=None, n_hi=None, ykinds=No
         max_ratio = min(max_ratio, 1e2)
     s = draw(gens.series(m_lo, m_hi, xkinds=xkinds, ykinds=ykinds, max_ratio=max_ratio, nonconstant=nonconstant))
     n = draw(st.one_of(st.sampled_from([2, 3, 4, 8, 10]), st.integers(2, n_hi)))
-    kw = draw(gens.rfa_params(name, n, exp_lo=exp_lo, smooth_default=smooth_default))
+    kw = draw(gens.rfa_params(name, n, exp_lo=exp_lo, smooth_default=smooth_default, alpha_hi=alpha_hi))
     case = dict(strategy=name, x=s["x"], y=s["y"], n=n, kw=kw, xkind=s["xkind"], ykind=s["ykind"], xint=s["xint"],
                 as_list=s["as_list"])
     return case
